@@ -18,7 +18,7 @@ WORDS = ["a", "b c", "foo", "Bar", "x1", "é", "ß", "Ǆ", "日本", "zz top", "
 INLINE_ATOMS = [
     "*e*", "**s**", "_e_", "__s__", "***es***", "*a **b** c*", "~~d~~", "`c`", "`` c`d ``", "` `", "`\xa0`",
     "[l](/u)", "[l](/u \"t\")", "[l](<u v> 't')", "[l][r]", "[r][]", "[r]", "![i](s)", "![i *e*](s \"t\")",
-    "![i][r]", "[![i](s)](/u)", "<http://x.y/z?a=b&c>", "<me@x.y>", "<javascript:alert(1)>", "<b>", "</b>",
+    "![i][r]", "[![i](s)](/u)", "![\\*](s)", "![&amp;](s)", "![a\\*b &lt; c](s)", "![x ![y\\_](t) z](s)", "![*e* \\[](s)", "![&#97;](s)", "<http://x.y/z?a=b&c>", "<me@x.y>", "<javascript:alert(1)>", "<b>", "</b>",
     "<a href=\"x\">", "<!-- c -->", "<?p?>", "<![CDATA[x]]>", "<!D x>", "&amp;", "&#35;", "&#x22;", "&copy;",
     "&nope;", "&#0;", "&#xD800;", "&#99999999;", "\\*", "\\\\", "\\a", "\\", "\\[", "a  \nb", "a\\\nb", "a\nb",
     "\"q\"", "'q'", "it's", "...", "--", "---", "(c)", "(tm)", "+-", "??!!", "http://a.b", "*", "_", "**", "[", "]",
